@@ -217,7 +217,7 @@ package ratelimit
 //@   loop 3 invariant tbs.maxPeriod == 0 || visited(tbs.maxPeriod)
 
 //@ func (*TokenLimiter).resolveRates
-//@   props C03 C13
+//@   props C03 C13 C14
 //@   holds tl.mutex
 //@   requires ratesOK(tl.defaultRates)
 //@   modifies external
